@@ -533,6 +533,106 @@ Proof.
     apply G; [|exact S1]. apply py_map_update_entries; auto. intros v0 Q. injection Q as <-. exact Hv.
 Qed.
 
+(* ---- literals, sets and maps included: from_micheline_value accepts exactly the sorted literals and builds typed values ---- *)
+Lemma py_of_data_typed_wf d : forall t, data_has_type t d = true -> wf_ty t = true ->
+  exists v, py_of_data t d = Some v /\ typed v t /\ erase v = value_of_data d.
+Proof.
+  induction d as [z|z|s|s|b| |x y IHx IHy| |x IHx|x IHx|x IHx|l IHl|l IHl|l IHl] using data_ind';
+    intros [] Ht Hn; simpl in Ht; try discriminate; simpl in Hn; simpl.
+  - eexists; repeat split.
+  - apply Z.leb_le in Ht. destruct (z <? 0)%Z eqn:E; [apply Z.ltb_lt in E; lia|].
+    eexists; repeat split. unfold typed. simpl. apply Z.leb_le. assumption.
+  - eexists; repeat split.
+  - apply andb_prop in Ht as [H1 H2]. pose proof H1 as H1'. apply Z.leb_le in H1'.
+    destruct (z <? 0)%Z eqn:E; [apply Z.ltb_lt in E; lia|]. rewrite H2.
+    eexists; repeat split. unfold typed. simpl. rewrite H1, H2. reflexivity.
+  - eexists; repeat split.
+  - eexists; repeat split.
+  - eexists; repeat split.
+  - eexists; repeat split.
+  - apply andb_prop in Ht as [H1 H2]. apply andb_prop in Hn as [N1 N2].
+    destruct (IHx _ H1 N1) as (v1 & E1 & T1 & R1). destruct (IHy _ H2 N2) as (v2 & E2 & T2 & R2).
+    rewrite E1, E2. eexists; repeat split; simpl; [unfold typed in *; simpl; rewrite T1, T2; reflexivity | congruence].
+  - eexists; repeat split. unfold typed. simpl. apply ty_eqb_refl.
+  - destruct (IHx _ Ht Hn) as (v & E & T & R). rewrite E. simpl. eexists; repeat split; simpl; [exact T | congruence].
+  - apply andb_prop in Hn as [N1 N2]. destruct (IHx _ Ht N1) as (v & E & T & R). rewrite E. simpl. eexists; repeat split; simpl.
+    + unfold typed in *. simpl. rewrite T, ty_eqb_refl. reflexivity.
+    + congruence.
+  - apply andb_prop in Hn as [N1 N2]. destruct (IHx _ Ht N2) as (v & E & T & R). rewrite E. simpl. eexists; repeat split; simpl.
+    + unfold typed in *. simpl. rewrite T, ty_eqb_refl. reflexivity.
+    + congruence.
+  - (* lists *)
+    assert (G : exists vs,
+      (fix go (l0 : list data) : option (list pval) :=
+         match l0 with
+         | [] => Some []
+         | x :: r => match py_of_data a x with
+                     | Some u => match go r with Some us => Some (u :: us) | None => None end
+                     | None => None
+                     end
+         end) l = Some vs /\ Forall (fun x => typed x a) vs /\ map erase vs = map value_of_data l).
+    { induction l as [|x r IHr]; [exists []; auto|].
+      simpl in Ht. apply andb_prop in Ht as [Hx Hr]. inversion IHl as [|? ? Px Pr]; subst.
+      destruct (Px _ Hx Hn) as (v & E & T & R). destruct (IHr Pr Hr) as (vs & Es & Ts & Rs).
+      rewrite E, Es. exists (v :: vs). repeat split; simpl; [constructor; assumption | congruence]. }
+    destruct G as (vs & Es & Ts & Rs). rewrite Es. simpl. eexists; repeat split; simpl; [apply typed_list_intro; exact Ts | congruence].
+  - (* sets *)
+    apply andb_prop in Ht as [Ht Hsorted]. apply andb_prop in Hn as [Hc Hw].
+    assert (G : exists vs,
+      (fix go (l0 : list data) : option (list pval) :=
+         match l0 with
+         | [] => Some []
+         | x :: r => match py_of_data k x with
+                     | Some u => match go r with Some us => Some (u :: us) | None => None end
+                     | None => None
+                     end
+         end) l = Some vs /\ Forall (fun x => typed x k) vs /\ map erase vs = map value_of_data l).
+    { clear Hsorted. induction l as [|x r IHr]; [exists []; auto|].
+      simpl in Ht. apply andb_prop in Ht as [Hx Hr]. inversion IHl as [|? ? Px Pr]; subst.
+      destruct (Px _ Hx Hw) as (v & E & T & R). destruct (IHr Pr Hr) as (vs & Es & Ts & Rs).
+      rewrite E, Es. exists (v :: vs). repeat split; simpl; [constructor; assumption | congruence]. }
+    destruct G as (vs & Es & Ts & Rs). rewrite Es. rewrite (sorted_transfer k vs Ts Hc), Rs, Hsorted.
+    eexists; repeat split; simpl; [|congruence].
+    unfold typed. simpl. rewrite ty_eqb_refl, (sorted_transfer k vs Ts Hc), Rs, Hsorted. simpl. rewrite andb_true_r.
+    apply forallb_forall. intros z Hz. rewrite Forall_forall in Ts. apply Ts. exact Hz.
+  - (* maps *)
+    apply andb_prop in Ht as [Ht Hsorted]. apply andb_prop in Hn as [Hn Hwv]. apply andb_prop in Hn as [Hc Hwk].
+    assert (G : exists vs,
+      (fix go (l0 : list data) : option (list pval) :=
+         match l0 with
+         | [] => Some []
+         | DPair k0 v0 :: r => match py_of_data k k0, py_of_data v v0, go r with
+                             | Some pk, Some pv, Some us => Some (PPair pk pv :: us)
+                             | _, _, _ => None
+                             end
+         | _ :: _ => None
+         end) l = Some vs /\ Forall (entry_typed k v) vs /\ map erase vs = map value_of_data l).
+    { clear Hsorted. induction l as [|x r IHr]; [exists []; auto|].
+      simpl in Ht. apply andb_prop in Ht as [Hx Hr]. inversion IHl as [|? ? Px Pr]; subst.
+      destruct x; try discriminate Hx.
+      assert (Hw : wf_ty (TPair k v) = true) by (simpl; rewrite Hwk, Hwv; reflexivity).
+      destruct (Px (TPair k v) Hx Hw) as (pv & E & T & R). simpl in E.
+      destruct (py_of_data k x1) as [pk|]; [|discriminate E]. destruct (py_of_data v x2) as [pw|]; [|discriminate E].
+      injection E as <-. destruct (IHr Pr Hr) as (vs & Es & Ts & Rs). rewrite Es.
+      exists (PPair pk pw :: vs). repeat split; simpl; [|simpl in R; congruence].
+      constructor; [|exact Ts]. apply typed_pair_inv in T as (a1 & a2 & Q & T1 & T2). injection Q as <- <-. exists pk, pw. auto. }
+    destruct G as (vs & Es & Ts & Rs). rewrite Es.
+    destruct (entries_facts k v vs Ts) as (Ek & Tk & _).
+    assert (Hs : py_strict_sorted (map py_key vs) = true).
+    { rewrite (sorted_transfer k _ Tk Hc), Ek, Rs. rewrite map_map. exact Hsorted. }
+    rewrite Hs. eexists; repeat split; simpl; [|congruence].
+    unfold typed. simpl. rewrite !ty_eqb_refl, Hs. simpl. rewrite andb_true_r.
+    apply forallb_forall. intros z Hz. rewrite Forall_forall in Ts. destruct (Ts z Hz) as (k' & v' & -> & H1 & H2).
+    unfold typed in H1, H2. rewrite H1, H2. reflexivity.
+Qed.
+
+Lemma no_coll_wf t : has_coll t = false -> has_literal t = true -> wf_ty t = true.
+Proof.
+  induction t; simpl; intros Hc Hl; try reflexivity; try discriminate;
+    try (apply orb_false_elim in Hc as [C1 C2]; apply andb_prop in Hl as [L1 L2]; rewrite IHt1, IHt2 by assumption; reflexivity);
+    auto.
+Qed.
+
 (* value.to_literal() / the reference's literal of a value: the same well-typed literal (APPLY) *)
 Lemma data_of_pval_ok v : forall t, typed v t -> has_literal t = true -> has_coll t = false ->
   exists d, data_of_pval v = Some d /\ data_of_value t (erase v) = Some d /\ data_has_type t d = true.
@@ -690,8 +790,8 @@ Proof.
   - (* SWAP *) tc_cases Htc. injection Htc as <-. inv_f2. give_args. simpl.
     eexists; split; [reflexivity | split; [reflexivity | repeat constructor; assumption]].
   - (* PUSH *) tc_cases Htc. injection Htc as <-. give_args. simpl.
-    apply andb_prop in Heqb as [Hd Hn]. simpl in Hn. apply negb_true_iff in Hn.
-    destruct (py_of_data_typed d t Hd Hn) as (v & E & T & R). rewrite E.
+    apply andb_prop in Heqb as [Hd Hn].
+    destruct (py_of_data_typed_wf d t Hd Hn) as (v & E & T & R). rewrite E.
     eexists; split; [reflexivity | split; [simpl; rewrite R; reflexivity | constructor; assumption]].
   - (* PAIR *) tc_cases Htc. injection Htc as <-. inv_f2. give_args. simpl. finish.
   - (* UNPAIR *) tc_cases Htc. injection Htc as <-. inv_f2. inv_ty. give_args. simpl.
@@ -935,7 +1035,7 @@ Proof.
     eexists; split; [reflexivity | split; [reflexivity | constructor; [|assumption]]].
     (* the closure { PUSH ta d ; PAIR ; body } has type lambda a2 b *)
     unfold typed. cbn [pv_typedb]. rewrite !ty_eqb_refl. simpl andb.
-    unfold lam_body_ok in *. unfold typecheck_nr in *. simpl. rewrite E3, Q3. simpl.
+    unfold lam_body_ok in *. unfold typecheck_nr in *. simpl. rewrite E3, (no_coll_wf ta Q3 Q2). simpl.
     remember (typecheck_gen true body [TPair ta a2]) as tb eqn:Eb. clear Eb.
     destruct tb as [[s1|]|]; [|reflexivity | discriminate Hbody].
     destruct s1 as [|b' [|]]; try discriminate Hbody. simpl. exact Hbody.
@@ -1046,6 +1146,57 @@ Proof.
   - left. apply ty_eqb_eq in E. apply forallb_forall. intros x Hx. rewrite Forall_forall in H.
     rewrite (typed_rt_type x b (H x Hx)), E. apply ty_eqb_refl.
   - right. intros C. rewrite C, ty_eqb_refl in E. discriminate.
+Qed.
+
+(* MAP over a non-empty map (control.py: items.append((elt.items[0], new_elt)); MapType.from_items(items)):
+   the rebuilt map has the SAME keys, the key type of the source and the value type of the body's results *)
+Lemma py_rekey_keys l : forall ys, length ys = length l -> map py_key (py_rekey l ys) = map py_key l.
+Proof.
+  induction l as [|x l IH]; intros [|y ys] L; simpl in *; try discriminate; [reflexivity|].
+  injection L as L. rewrite (IH _ L). reflexivity.
+Qed.
+
+Lemma map_entry_typed kt vt x : (match x with PPair k v => pv_typedb k kt && pv_typedb v vt | _ => false end) = true ->
+  exists k v, x = PPair k v /\ typed k kt /\ typed v vt.
+Proof. destruct x; try discriminate. intros H. apply andb_prop in H as [H1 H2]. eauto. Qed.
+
+Lemma map_map_types kt vt b l ys :
+  typed (PMap kt vt l) (TMap kt vt) -> Forall (fun y => typed y b) ys -> length ys = length l -> l <> [] ->
+  map_from_items (py_rekey l ys) = Some (PMap kt b (py_rekey l ys)) /\
+  typed (PMap kt b (py_rekey l ys)) (TMap kt b) /\
+  map py_key (py_rekey l ys) = map py_key l.
+Proof.
+  intros Ht Hys L Hne. unfold typed in Ht. simpl in Ht.
+  apply andb_prop in Ht as [Ht Hsorted]. apply andb_prop in Ht as [Ht Hall]. clear Ht.
+  pose proof (py_rekey_keys l ys L) as Hk.
+  assert (Hent : forall l ys, length ys = length l ->
+            forallb (fun x => match x with PPair k v => pv_typedb k kt && pv_typedb v vt | _ => false end) l = true ->
+            Forall (fun y => typed y b) ys ->
+            forallb (fun x => match x with PPair k v => pv_typedb k kt && pv_typedb v b | _ => false end) (py_rekey l ys) = true /\
+            forallb (fun x => match x with PPair k' v' => ty_eqb kt (rt_type k') && ty_eqb b (rt_type v') | _ => false end) (py_rekey l ys) = true).
+  { clear. induction l as [|x l IH]; intros [|y ys] L Hall Hys; simpl in *; try discriminate; [auto|].
+    injection L as L. apply andb_prop in Hall as [Hx Hall]. inversion Hys as [|? ? Hy Hys']; subst.
+    destruct (map_entry_typed kt vt x Hx) as (k & v & -> & Hk & Hv). simpl.
+    destruct (IH ys L Hall Hys') as [I1 I2]. rewrite I1, I2. unfold typed in *. rewrite Hk, Hy.
+    rewrite (typed_rt_type k kt Hk), (typed_rt_type y b Hy), !ty_eqb_refl. auto. }
+  destruct (Hent l ys L Hall Hys) as [E1 E2].
+  destruct l as [|x l]; [congruence|]. destruct ys as [|y ys]; [discriminate|].
+  simpl in Hall. apply andb_prop in Hall as [Hx Hall]. destruct (map_entry_typed kt vt x Hx) as (k & v & -> & Hk0 & Hv0).
+  inversion Hys as [|? ? Hy Hys']; subst.
+  change (py_rekey (PPair k v :: l) (y :: ys)) with (PPair (py_key (PPair k v)) y :: py_rekey l ys) in *.
+  change (py_key (PPair k v)) with k in *.
+  remember (PPair k y :: py_rekey l ys) as ents eqn:Eents.
+  split; [|split; [|exact Hk]].
+  - unfold map_from_items. rewrite Eents. rewrite <- Eents.
+    rewrite (typed_rt_type k kt Hk0), (typed_rt_type y b Hy).
+    rewrite Eents in E2. simpl in E2. apply andb_prop in E2 as [_ E2]. rewrite E2. rewrite Hk, Hsorted. reflexivity.
+  - unfold typed. cbn [pv_typedb]. rewrite !ty_eqb_refl, E1, Hk, Hsorted. reflexivity.
+Qed.
+
+Lemma rekey_erase kt vt l : Forall (entry_typed kt vt) l -> forall ys,
+  map erase (py_rekey l ys) = v_rekey (map erase l) (map erase ys).
+Proof.
+  induction 1 as [|x l (k & v & -> & _ & _) Hl IH]; intros [|y ys]; simpl; try reflexivity. rewrite IH. reflexivity.
 Qed.
 
 Section Sim.
@@ -1224,24 +1375,46 @@ Section Sim.
         * intros C. rewrite C in Htc. discriminate.
         * eapply Forall_impl; [|exact Hl]. intros x Hx. apply entry_typed_pair. exact Hx.
     - (* MAP *)
-      destruct s as [|[] r]; try discriminate. inversion Hs as [|v ? rest ? Hv Hr]; subst.
-      apply typed_list_inv' in Hv as (l & -> & Hl). simpl. rewrite pop1_mkst.
-      destruct (typecheck_gen true c (a :: r)) as [[[|b r1]|]|] eqn:Ec; try discriminate.
-      destruct (sty_eqb r1 r && (negb true || ty_eqb a b)) eqn:Q; [|discriminate]. injection Htc as <-.
-      apply andb_prop in Q as [Q1 Q2]. apply sty_eqb_eq in Q1. simpl in Q2. apply ty_eqb_eq in Q2. subst r1 b.
-      pose proof (map_sim c a a r pre Ec l rest Hl Hr) as H.
-      destruct (ref_map (ref_eval e f c) (map erase l) (map erase rest)) as [ys s2|o]; simpl in H.
-      + destruct H as (pys & rest' & Epm & <- & <- & Tp & Tr). rewrite Epm.
-        destruct pys as [|y pys]; simpl.
-        * rewrite push_mkst. apply py_map_length in Epm. destruct l; [|discriminate Epm].
-          exists (PList a [] :: rest'). repeat split; auto.
-          constructor; [apply typed_list_intro; constructor | assumption].
-        * inversion Tp as [|? ? Hy Tp']; subst.
-          destruct (typed_all_rt a pys Tp' y) as [F | F]; [|elim F; apply typed_rt_type; assumption].
-          rewrite F, push_mkst. rewrite (typed_rt_type y a Hy).
-          exists (PList a (y :: pys) :: rest'). repeat split; auto.
-          constructor; [apply typed_list_intro; assumption | assumption].
-      + destruct o; try contradiction; simpl; [destruct H as (pv & -> & <-); simpl; eauto | rewrite H; reflexivity | rewrite H; reflexivity].
+      destruct s as [|[] r]; try discriminate; inversion Hs as [|pv0 ? rest ? Hv Hr]; subst.
+      { (* list *)
+        apply typed_list_inv' in Hv as (l & -> & Hl). simpl. rewrite pop1_mkst.
+        destruct (typecheck_gen true c (a :: r)) as [[[|b r1]|]|] eqn:Ec; try discriminate.
+        destruct (sty_eqb r1 r && (negb true || ty_eqb a b)) eqn:Q; [|discriminate]. injection Htc as <-.
+        apply andb_prop in Q as [Q1 Q2]. apply sty_eqb_eq in Q1. simpl in Q2. apply ty_eqb_eq in Q2. subst r1 b.
+        pose proof (map_sim c a a r pre Ec l rest Hl Hr) as H.
+        destruct (ref_map (ref_eval e f c) (map erase l) (map erase rest)) as [ys s2|o]; simpl in H.
+        + destruct H as (pys & rest' & Epm & <- & <- & Tp & Tr). rewrite Epm.
+          destruct pys as [|y pys]; simpl.
+          * rewrite push_mkst. apply py_map_length in Epm. destruct l; [|discriminate Epm].
+            exists (PList a [] :: rest'). repeat split; auto.
+            constructor; [apply typed_list_intro; constructor | assumption].
+          * inversion Tp as [|? ? Hy Tp']; subst.
+            destruct (typed_all_rt a pys Tp' y) as [F | F]; [|elim F; apply typed_rt_type; assumption].
+            rewrite F, push_mkst. rewrite (typed_rt_type y a Hy).
+            exists (PList a (y :: pys) :: rest'). repeat split; auto.
+            constructor; [apply typed_list_intro; assumption | assumption].
+        + destruct o; try contradiction; simpl; [destruct H as (pv & -> & <-); simpl; eauto | rewrite H; reflexivity | rewrite H; reflexivity].
+      }
+      { (* map *)
+        pose proof Hv as Hm. apply typed_map_inv in Hv as (l & -> & Hl). simpl. rewrite pop1_mkst.
+        destruct (typecheck_gen true c (TPair k v :: r)) as [[[|b r1]|]|] eqn:Ec; try discriminate.
+        destruct (sty_eqb r1 r && (negb true || ty_eqb v b)) eqn:Q; [|discriminate]. injection Htc as <-.
+        apply andb_prop in Q as [Q1 Q2]. apply sty_eqb_eq in Q1. simpl in Q2. apply ty_eqb_eq in Q2. subst r1 b.
+        assert (Hl' : Forall (fun x => typed x (TPair k v)) l) by (eapply Forall_impl; [|exact Hl]; intros x Hx; apply entry_typed_pair; exact Hx).
+        pose proof (map_sim c (TPair k v) v r pre Ec l rest Hl' Hr) as H.
+        destruct (ref_map (ref_eval e f c) (map erase l) (map erase rest)) as [ys s2|o]; simpl in H.
+        * destruct H as (pys & rest' & Epm & <- & <- & Tp & Tr). rewrite Epm.
+          pose proof (py_map_length _ _ _ _ _ Epm) as L.
+          destruct pys as [|y pys].
+          { destruct l; [|discriminate L]. simpl. rewrite push_mkst. exists (PMap k v [] :: rest'). repeat split; auto.
+            constructor; [exact Hm | assumption]. }
+          { assert (Hne : l <> []) by (destruct l; [discriminate L | discriminate]).
+            destruct (map_map_types k v v l (y :: pys) Hm Tp L Hne) as (E1 & T1 & _). rewrite E1. rewrite push_mkst.
+            exists (PMap k v (py_rekey l (y :: pys)) :: rest'). repeat split; auto.
+            - simpl. rewrite (rekey_erase k v l Hl). reflexivity.
+            - constructor; [exact T1 | assumption]. }
+        * destruct o; try contradiction; simpl; [destruct H as (pv & -> & <-); simpl; eauto | rewrite H; reflexivity | rewrite H; reflexivity].
+      }
     - (* CONCAT *)
       unfold option_map in Htc. destruct (tc_simple true I_CONCAT s) as [s1|] eqn:E; [|discriminate]. injection Htc as <-.
       simpl in E. destruct s as [|[] r]; try discriminate.
@@ -1379,51 +1552,6 @@ Proof.
   constructor; [apply typed_rt_type; exact Hv | exact IHT].
 Qed.
 
-(* MAP over a non-empty map (control.py: items.append((elt.items[0], new_elt)); MapType.from_items(items)):
-   the rebuilt map has the SAME keys, the key type of the source and the value type of the body's results *)
-Lemma py_rekey_keys l : forall ys, length ys = length l -> map py_key (py_rekey l ys) = map py_key l.
-Proof.
-  induction l as [|x l IH]; intros [|y ys] L; simpl in *; try discriminate; [reflexivity|].
-  injection L as L. rewrite (IH _ L). reflexivity.
-Qed.
-
-Lemma map_entry_typed kt vt x : (match x with PPair k v => pv_typedb k kt && pv_typedb v vt | _ => false end) = true ->
-  exists k v, x = PPair k v /\ typed k kt /\ typed v vt.
-Proof. destruct x; try discriminate. intros H. apply andb_prop in H as [H1 H2]. eauto. Qed.
-
-Lemma map_map_types kt vt b l ys :
-  typed (PMap kt vt l) (TMap kt vt) -> Forall (fun y => typed y b) ys -> length ys = length l -> l <> [] ->
-  map_from_items (py_rekey l ys) = Some (PMap kt b (py_rekey l ys)) /\
-  typed (PMap kt b (py_rekey l ys)) (TMap kt b) /\
-  map py_key (py_rekey l ys) = map py_key l.
-Proof.
-  intros Ht Hys L Hne. unfold typed in Ht. simpl in Ht.
-  apply andb_prop in Ht as [Ht Hsorted]. apply andb_prop in Ht as [Ht Hall]. clear Ht.
-  pose proof (py_rekey_keys l ys L) as Hk.
-  assert (Hent : forall l ys, length ys = length l ->
-            forallb (fun x => match x with PPair k v => pv_typedb k kt && pv_typedb v vt | _ => false end) l = true ->
-            Forall (fun y => typed y b) ys ->
-            forallb (fun x => match x with PPair k v => pv_typedb k kt && pv_typedb v b | _ => false end) (py_rekey l ys) = true /\
-            forallb (fun x => match x with PPair k' v' => ty_eqb kt (rt_type k') && ty_eqb b (rt_type v') | _ => false end) (py_rekey l ys) = true).
-  { clear. induction l as [|x l IH]; intros [|y ys] L Hall Hys; simpl in *; try discriminate; [auto|].
-    injection L as L. apply andb_prop in Hall as [Hx Hall]. inversion Hys as [|? ? Hy Hys']; subst.
-    destruct (map_entry_typed kt vt x Hx) as (k & v & -> & Hk & Hv). simpl.
-    destruct (IH ys L Hall Hys') as [I1 I2]. rewrite I1, I2. unfold typed in *. rewrite Hk, Hy.
-    rewrite (typed_rt_type k kt Hk), (typed_rt_type y b Hy), !ty_eqb_refl. auto. }
-  destruct (Hent l ys L Hall Hys) as [E1 E2].
-  destruct l as [|x l]; [congruence|]. destruct ys as [|y ys]; [discriminate|].
-  simpl in Hall. apply andb_prop in Hall as [Hx Hall]. destruct (map_entry_typed kt vt x Hx) as (k & v & -> & Hk0 & Hv0).
-  inversion Hys as [|? ? Hy Hys']; subst.
-  change (py_rekey (PPair k v :: l) (y :: ys)) with (PPair (py_key (PPair k v)) y :: py_rekey l ys) in *.
-  change (py_key (PPair k v)) with k in *.
-  remember (PPair k y :: py_rekey l ys) as ents eqn:Eents.
-  split; [|split; [|exact Hk]].
-  - unfold map_from_items. rewrite Eents. rewrite <- Eents.
-    rewrite (typed_rt_type k kt Hk0), (typed_rt_type y b Hy).
-    rewrite Eents in E2. simpl in E2. apply andb_prop in E2 as [_ E2]. rewrite E2. rewrite Hk, Hsorted. reflexivity.
-  - unfold typed. cbn [pv_typedb]. rewrite !ty_eqb_refl, E1, Hk, Hsorted. reflexivity.
-Qed.
-
 (* EXEC of a first-order lambda whose body lies in the proved fragment: pytezos (fresh MichelsonStack holding the
    argument, body, pop the result, class checks) agrees with the reference rule *)
 Lemma c01_exec fuel a b body param rest hid :
@@ -1475,7 +1603,6 @@ Qed.
 Lemma tc_simple_sub i s x : tc_simple true i s = Some x -> tc_simple false i s = Some x.
 Proof.
   destruct i; simpl; try (intros H; exact H); try discriminate.
-  - (* PUSH *) destruct (data_has_type t d); simpl; [|discriminate]. destruct (has_coll t); simpl; [discriminate | auto].
   - (* APPLY *) destruct s as [|ta [|[] r]]; auto. destruct a; auto. destruct (ty_eqb ta a1); simpl; auto.
     destruct (has_literal ta); simpl; auto. destruct (has_coll ta); simpl; [discriminate | auto].
 Qed.
@@ -1514,8 +1641,10 @@ Proof.
       match type of H with context [typecheck_gen true c ?st] =>
         destruct (typecheck_gen true c st) as [x|] eqn:E1; [|discriminate]; rewrite (IHc _ _ E1); assumption end.
   - destruct s as [|[] r]; try discriminate.
-    destruct (typecheck_gen true c (a :: r)) as [[[|b r1]|]|] eqn:E1; try discriminate. rewrite (IHc _ _ E1).
-    destruct (sty_eqb r1 r); simpl in *; [|discriminate]. destruct (ty_eqb a b); [assumption | discriminate].
+    + destruct (typecheck_gen true c (a :: r)) as [[[|b r1]|]|] eqn:E1; try discriminate. rewrite (IHc _ _ E1).
+      destruct (sty_eqb r1 r); simpl in *; [|discriminate]. destruct (ty_eqb a b); [assumption | discriminate].
+    + destruct (typecheck_gen true c (TPair k v :: r)) as [[[|b r1]|]|] eqn:E1; try discriminate. rewrite (IHc _ _ E1).
+      destruct (sty_eqb r1 r); simpl in *; [|discriminate]. destruct (ty_eqb v b); [assumption | discriminate].
   - (* LAMBDA *) destruct (typecheck_gen true c [a]) as [x|] eqn:E1; [|discriminate]. rewrite (IHc _ _ E1). assumption.
 Qed.
 
